@@ -1,5 +1,14 @@
 ------------------------- MODULE AdapterContract_MC -------------------------
 (* Bounded instance of AdapterContract: K concurrent requests over every class of entry point. *)
 EXTENDS AdapterContract
-MCClasses == { [wraps |-> w, errsig |-> s, fb |-> f] : w \in BOOLEAN, s \in BOOLEAN, f \in {"custom", "default"} }
+MCClasses == { [wraps |-> w, errsig |-> s, fb |-> f, side |-> d] : w \in BOOLEAN, s \in BOOLEAN, f \in {"custom", "default"}, d \in Sides }
+\* -1: no system rule; 0: always violated; limit = K can never be violated when an entry is asked (it needs K requests
+\* in flight and one more asking)
+MCLimits == (-1)..(K - 1)
+\* Requests are interchangeable (Next treats every r alike, no invariant names a particular request): it is enough to
+\* explore the class assignments that are sorted by Rank - every other initial state is a permutation of one of them.
+Rank(c) == (IF c.wraps THEN 1 ELSE 0) + (IF c.errsig THEN 2 ELSE 0) + (IF c.fb = "custom" THEN 4 ELSE 0) + (IF c.side = "server" THEN 8 ELSE 0)
+           + (CASE c.outcome = "ok" -> 0 [] c.outcome = "err" -> 16 [] OTHER -> 32)
+MCInit == Init /\ \A r \in 1..(K - 1) : Rank(cls[r]) <= Rank(cls[r + 1])
+MCSpec == MCInit /\ [][Next]_vars
 =============================================================================
